@@ -13,6 +13,9 @@ def check(ctx):
     core4.condition_branches(ctx, "C12")
     core4.simultaneous_relations(ctx, "C12")
     core4.merged_transactions(ctx, "C12")
+    from . import core7
+
+    core7.group_has_enclosing(ctx, "C12")
     core2.mgr_ready_dependencies(ctx, "C12")
     core2.body_wrappers(ctx, "C12")
     core.cg_priority_passthrough(ctx, "C12")
